@@ -18,6 +18,7 @@ import (
 	"sync"
 	"sync/atomic"
 
+	"github.com/gobwas/glob"
 	"k8s.io/apimachinery/pkg/api/meta"
 	"k8s.io/client-go/discovery"
 	"k8s.io/client-go/dynamic"
@@ -837,6 +838,23 @@ func c05ExecFiles(c c05Case) (res c05Obs) {
 		return o
 	}
 	first := once()
+	// the glob library asked directly, the way files.Glob is documented to use it: '/' separates
+	// path elements, an invalid pattern matches everything
+	{
+		g, err := glob.Compile(c.Pattern, '/')
+		if err != nil {
+			g, _ = glob.Compile("**")
+		}
+		seen := map[string]bool{}
+		obs.LibMatched = []string{}
+		for _, f := range c.Files {
+			if !seen[f.Name] && g.Match(f.Name) {
+				obs.LibMatched = append(obs.LibMatched, f.Name)
+			}
+			seen[f.Name] = true
+		}
+		sort.Strings(obs.LibMatched)
+	}
 	obs.Matched, obs.Gets, obs.GlobGets, obs.Lines, obs.Config, obs.Secrets = first.Matched, first.Gets, first.GlobGets, first.Lines, first.Config, first.Secrets
 	obs.Regimes["files-repeat"] = "same"
 	for i := 0; i < 12; i++ {
